@@ -17,7 +17,7 @@ import (
 // adversary on the response path, or taken from a forked server (soundness).
 
 func init() {
-	register(&simcore.Check{ID: "C01", Bubble: true, Liveness: true, Body: c01Body})
+	register(&simcore.Check{ID: "C01", Bubble: true, Liveness: true, Body: c01Body, AltBody: c01bBody, AltPct: 10})
 }
 
 func c01Body(r *simcore.Run) {
